@@ -235,22 +235,22 @@ type OpResult struct {
 
 // Invocation is one logged handler invocation.
 type Invocation struct {
-	ConnKey  string
-	connRef  varlink.ReadWriterContext // keeps the connection object alive so that ConnKey (its address) stays unique
-	Iface    string
-	Method   string
-	More     bool
-	Oneway   bool
-	Upgrade  bool
-	Params   []byte // bytes obtained through Call.GetParameters(&json.RawMessage)
-	ParamErr string
-	Request  []byte // copy of *Call.Request
-	Conn, ID int
+	ConnKey   string
+	connRef   varlink.ReadWriterContext // keeps the connection object alive so that ConnKey (its address) stays unique
+	Iface     string
+	Method    string
+	More      bool
+	Oneway    bool
+	Upgrade   bool
+	Params    []byte // bytes obtained through Call.GetParameters(&json.RawMessage)
+	ParamErr  string
+	Request   []byte // copy of *Call.Request
+	Conn, ID  int
 	HasScript bool
-	Results  []OpResult
-	Enter    int64
-	Exit     int64
-	RetErr   bool
+	Results   []OpResult
+	Enter     int64
+	Exit      int64
+	RetErr    bool
 }
 
 // InvLog is the shared invocation log of a service harness.
